@@ -49,3 +49,75 @@ Theorem c16_header_rule : forall d v flex,
   (d_kind d <> "request" -> d_kind d <> "response" -> header_of d v flex = None).
 Proof. exact header_rule. Qed.
 Print Assumptions c16_header_rule.
+
+(* ---- the wire clause: "instances of the generated classes encode to the bytes an independent
+   reading of the definition prescribes".  Gen/GenPlan.v reads the codec plans directly off the
+   generator model's output for (definition, version); whenever those plans are well formed
+   (def_wf, a boolean evaluated for every generated module by the check) the encoder over them
+   IS the wire specification, and its output decodes back, for every class of the module and every
+   typed value - for every definition and version, not only the sampled ones. *)
+From KioV Require Import Base.Prog Codec.Value Codec.Reader Codec.Writer Schema.Introspect Codec.Typed
+  Codec.WireSpec Codec.WireSpecProofs Codec.RoundtripProofs Gen.GenPlan.
+
+Theorem c16_generated_module_encodes_to_spec : forall builtins d v ps (ec : list Z),
+  def_plans builtins d v = Some ps -> def_wf builtins d v = true ->
+  forall i x, typed ps ec i x = true ->
+  encode (map writer_plan ps) i x = spec_enc ps i (plain x).
+Proof.
+  intros builtins d v ps ec Hp Hwf i x Ht. unfold def_wf in Hwf. rewrite Hp in Hwf.
+  exact (encode_is_spec ps ec Hwf i x Ht).
+Qed.
+Print Assumptions c16_generated_module_encodes_to_spec.
+
+Theorem c16_generated_module_roundtrips : forall builtins d v ps (ec : list Z),
+  def_plans builtins d v = Some ps -> def_wf builtins d v = true ->
+  forall i x bs tl, typed ps ec i x = true ->
+  encode (map writer_plan ps) i x = Ok bs ->
+  decode (map reader_plan ps) ec i (bs ++ tl) = Ok (x, tl).
+Proof.
+  intros builtins d v ps ec Hp Hwf i x bs tl Ht He. unfold def_wf in Hwf. rewrite Hp in Hwf.
+  exact (decode_encode ps ec Hwf i x bs tl Ht He).
+Qed.
+Print Assumptions c16_generated_module_roundtrips.
+
+(* ---- well-formedness of the plans is itself a THEOREM for definitions satisfying a boolean,
+   syntactic condition (Gen/GenWf.v, Gen/GenWfProofs.v):  module_ok on generated classes (tags in
+   range / unique / only on flexible classes, references to earlier classes, known Kafka types,
+   derivable defaults for tagged fields, no tagged float64, non-empty array items);  defn_ok on the
+   definition's own fields valid at the version (plus "the generator succeeds", without which
+   def_wf is false by definition).  The check evaluates defn_ok on every generated definition and
+   version and reports how many are covered by the theorem; the exactness Examples in
+   GenWfProofs.v show defn_ok = def_wf on 4032 enumerated definitions. *)
+From KioV Require Import Gen.GenWf Gen.GenWfProofs.
+
+Theorem c16_module_ok_plans_well_formed : forall m ps,
+  module_ok m = true -> plans_of_module m = Some ps -> wf_env ps = true.
+Proof. exact module_ok_wf. Qed.
+Print Assumptions c16_module_ok_plans_well_formed.
+
+Theorem c16_every_class_has_a_plan : forall m, module_ok m = true ->
+  exists ps, plans_of_module m = Some ps /\ Forall2 (fun c p => plan_of_gclass m c = Some p) m ps.
+Proof. exact module_ok_plans. Qed.
+
+Theorem c16_supported_definitions_are_well_formed : forall builtins d v,
+  defn_ok builtins d v = true -> def_wf builtins d v = true.
+Proof. exact defn_ok_wf. Qed.
+Print Assumptions c16_supported_definitions_are_well_formed.
+
+(* end to end, for every supported definition and version: the generated module's classes encode
+   to the wire specification and decode back *)
+Theorem c16_supported_definitions_encode_to_spec : forall builtins d v (ec : list Z),
+  defn_ok builtins d v = true ->
+  exists ps, def_plans builtins d v = Some ps /\
+    forall i x, typed ps ec i x = true ->
+      encode (map writer_plan ps) i x = spec_enc ps i (plain x) /\
+      forall bs tl, encode (map writer_plan ps) i x = Ok bs ->
+                    decode (map reader_plan ps) ec i (bs ++ tl) = Ok (x, tl).
+Proof.
+  intros builtins d v ec Hok. pose proof (defn_ok_wf builtins d v Hok) as Hwf.
+  unfold def_wf in Hwf. destruct (def_plans builtins d v) as [ps|] eqn:Hp; [|discriminate].
+  exists ps. split; [reflexivity|]. intros i x Ht. split.
+  - exact (encode_is_spec ps ec Hwf i x Ht).
+  - intros bs tl He. exact (decode_encode ps ec Hwf i x bs tl Ht He).
+Qed.
+Print Assumptions c16_supported_definitions_encode_to_spec.
